@@ -152,6 +152,9 @@ func (e *Explorer) report(x *Exec) {
 	if i := strings.Index(key, " | "); i >= 0 {
 		key = key[:i] // text after " | " is case-specific context, not part of the finding's identity
 	}
+	if x.KeyTag != "" {
+		key = "[" + x.KeyTag + "] " + key
+	}
 	if e.KeyFn != nil {
 		key = e.KeyFn(x)
 	}
